@@ -66,6 +66,8 @@ class C19:
                     keys = keys[2][0]
                 n_ = ("call", ("builtin", "len"), (tags,), ())
                 sizes = [n_] + [("attr", SELF, a_) for a_, v_ in stores.items() if v_ == n_]
+                if keys[0] == "comp" and keys[1] == "list" and len(keys[3]) == 1 and keys[3][0][1] == tags and not keys[3][0][2]:
+                    sizes.append(("call", ("builtin", "len"), (keys,), ()))  # one key per tag: len(keys) is len(tags)
                 counting = idxs in [("call", ("builtin", "range"), (z_,), ()) for z_ in sizes] + [("call", ("builtin", "range"), (("const", 0), z_), ()) for z_ in sizes] \
                     + [("call", ("ext", "itertools.count"), (), ()), ("call", ("ext", "itertools.count"), (("const", 0),), ())]
                 if counting and keys[0] == "comp" and keys[1] in ("gen", "list") and len(keys[3]) == 1 and keys[3][0][1] == tags and not keys[3][0][2]:
@@ -176,6 +178,10 @@ class C19:
             site = f"{self.file}:{s.node.lineno} {fname}"
             tags, encoder = ("param", s.params[0]), ("param", s.params[1])
             loops = [l for l in s.loops.values() if l.kind == "for"]
+            if len(s.of("store")) == 1 and not s.of("store")[0].loops:
+                sc = self.scatter_form(s, fname, tags, encoder, val_of, site)
+                if sc is not None:
+                    continue
             if len(loops) != 1 or loops[0].iter != tags or loops[0].conds:
                 ctx.bad("R19.2", self.file, fname, "loop over tags", "the encoding must iterate every tag of the input once", s.node.lineno)
                 continue
@@ -203,6 +209,97 @@ class C19:
                         f"{fname} must start from zeros(encoder.num_classes) and only assign encoded[index] = "
                         f"{'1' if val_of is None else 'prediction.score'} where index = encoder.encode(that element's tag) is not None "
                         f"(store ok={good}, zeros={zeros_ok}, returns the array={ret_ok})", s.node.lineno)
+
+    def scatter_form(self, s, fname, tags, encoder, val_of, site):
+        """The vectorised spelling: `encoded = zeros(num_classes); encoded[I] = V; return encoded` with I the list of
+        encoder.encode(tag) over the input elements whose code is not None (in input order) and V the constant 1 / the list of the
+        scores of the same elements: numpy assigns element by element in order, a later duplicate overwriting an earlier one, as the
+        loop does.  Both lists are rewritten as functions of the element at input position POS, whatever chain of unfiltered
+        comprehensions / enumerate / list() they were built through.  None = another shape (nothing reported); else True / False."""
+        from sa.sym import fold_sub
+        ctx = self.ctx
+        stores = s.of("store")
+        if len(stores) != 1 or stores[0].loops or stores[0].live != ("const", True) and any(c[0] != "inloop" for c in conjuncts(stores[0].live)):
+            return None
+        st = stores[0]
+        tgt, V = st.term[1], st.term[2]
+        if tgt[0] != "sub":
+            return None
+        arr, I = tgt[1], tgt[2]
+        while I[0] == "call" and I[1] in (("ext", "numpy.asarray"), ("ext", "numpy.array"), ("builtin", "list")) and I[2]:
+            I = I[2][0]
+        if I[0] != "comp":
+            return None
+        POS = ("var", "pos")
+        X = ("sub", tags, POS)
+
+        def item_at(seq, depth=0):
+            """the element at input position POS of a sequence derived from `tags` one element per element; None = not such a sequence"""
+            if depth > 6:
+                return None
+            if seq == tags:
+                return X
+            if seq[0] == "call" and seq[1] in (("builtin", "list"), ("builtin", "tuple")) and len(seq[2]) == 1 and not seq[3]:
+                return item_at(seq[2][0], depth + 1)
+            if seq[0] == "comp" and seq[1] in ("list", "gen") and len(seq[3]) == 1 and not seq[3][0][2]:
+                inner = item_at(seq[3][0][1], depth + 1)
+                return None if inner is None else fold_sub(subst(seq[2], {("elem", seq[3][0][0]): inner}))
+            return None
+
+        def as_function_of_pos(comp, depth=0):
+            """(element, conditions) of a comprehension over the input positions, in terms of POS / tags[POS]"""
+            if depth > 4 or comp[0] != "comp" or comp[1] not in ("list", "gen") or len(comp[3]) != 1:
+                return None
+            lid, it, conds = comp[3][0]
+            e = ("elem", lid)
+            if it[0] == "call" and it[1] == ("builtin", "enumerate") and len(it[2]) == 1 and not it[3]:
+                item = item_at(it[2][0])
+                if item is None:
+                    return None
+                mp = {("sub", e, ("const", 0)): POS, ("sub", e, ("const", 1)): item}
+            elif it[0] == "comp":
+                inner = as_function_of_pos(it, depth + 1)  # a comprehension over a filtered comprehension: the filters add up
+                if inner is None:
+                    return None
+                elt_in, conds_in = inner
+                elt_ = fold_sub(subst(comp[2], {e: elt_in}))
+                return elt_, tuple(conds_in) + tuple(fold_sub(subst(c, {e: elt_in})) for c in conds)
+            else:
+                item = item_at(it)
+                if item is None:
+                    return None
+                mp = {e: item}
+            return fold_sub(subst(comp[2], mp)), tuple(fold_sub(subst(c, mp)) for c in conds)
+
+        def norm(t):
+            # list(tags)[POS] is tags[POS]
+            return subst(t, {("sub", ("call", ("builtin", "list"), (tags,), ()), POS): X})
+
+        fi = as_function_of_pos(I)
+        if fi is None:
+            return None
+        idx_elt, idx_conds = norm(fi[0]), tuple(norm(c) for c in fi[1])
+        tagterm = X if val_of is None else ("attr", X, "tag")
+        idx = ("call", ("attr", encoder, "encode"), (tagterm,), ())
+        good_idx = idx_elt == idx and idx_conds == (("cmp", "isnot", idx, NONE),)
+        if val_of is None:
+            good_val = V in (("const", 1), ("const", 1.0), ("const", True))
+        else:
+            fv = as_function_of_pos(V) if V[0] == "comp" else None
+            good_val = fv is not None and norm(fv[0]) == ("attr", X, val_of) and tuple(norm(c) for c in fv[1]) == idx_conds
+        nc_ = ("attr", encoder, "num_classes")
+        shp_ = (arr[2][0] if arr[2] else callkw(arr).get("shape")) if arr[0] == "call" else None
+        zeros_ok = arr[0] == "call" and arr[1] == ("ext", "numpy.zeros") and shp_ in (nc_, ("tuple", (nc_,)), ("list", (nc_,)))
+        ret_ok = len(s.returns) == 1 and s.returns[0].term == arr
+        accum = [e for e in s.calls if e.term[1][0] == "ext" and e.term[1][1].startswith("numpy.") and e.term[1][1].endswith(".at")]
+        if good_idx and good_val and zeros_ok and ret_ok and not accum:
+            ctx.ok("R19.2", site, f"zeros(num_classes); encoded[codes of the vocabulary tags, in input order] = {'1' if val_of is None else 'the scores of the same elements'} (one vectorised store)")
+            return True
+        ctx.bad("R19.2", self.file, fname, f"stores: {[show(x.term)[:70] for x in stores]}",
+                f"{fname} must start from zeros(encoder.num_classes) and only assign encoded[index] = "
+                f"{'1' if val_of is None else 'prediction.score'} where index = encoder.encode(that element's tag) is not None "
+                f"(codes ok={good_idx}, values ok={good_val}, zeros={zeros_ok}, returns the array={ret_ok})", s.node.lineno)
+        return False
 
     # ------------------------------------------------------------------ R19.3
     def hash_consistent(self, shape, seen=None) -> Optional[str]:
